@@ -124,7 +124,7 @@ Fixpoint exec_with (step : market -> op -> result (market * list record)) (m : m
               end
   end.
 
-Require Import Pams.Sim Pams.SimMarketLift Pams.MarketSeries.
+Require Import Pams.Sim Pams.SimMarketLift Pams.MarketSeries Pams.MarketExec Pams.MarketRound Pams.MarketPrice Pams.MatchQ.
 
 Theorem every_history_of_the_source_is_a_history_of_the_model : forall ops m,
   book_ok m -> gone_here m -> 0 <= m_time m -> Forall valid_op ops ->
@@ -201,6 +201,54 @@ Proof.
 Qed.
 Print Assumptions books_are_priority_sorted_along_histories_of_the_source.
 Print Assumptions recorded_history_is_immutable_along_histories_of_the_source.
+
+(* the three premises of the step theorem travel along every history *)
+Lemma premises_travel ops : forall m, book_ok m -> gone_here m -> 0 <= m_time m -> Forall valid_op ops ->
+  let mf := fst (exec_with step_rec m ops) in book_ok mf /\ gone_here mf /\ 0 <= m_time mf.
+Proof.
+  induction ops as [|o r IH]; intros m HB HG Ht HV; [cbn; auto|]. inversion HV as [|o' r' Ho Hr]; subst.
+  cbn [exec_with]. destruct (step_rec m o) as [[m' rs]|e] eqn:E; [|apply IH; assumption].
+  assert (K : let mf := fst (exec_with step_rec m' r) in book_ok mf /\ gone_here mf /\ 0 <= m_time mf).
+  { apply IH; [exact (step_rec_ok m o m' rs HB Ho E)|exact (proj1 (proj2 (step_rec_mkt m o m' rs HB HG E)))|
+               pose proof (step_rec_time_mono m o m' rs E); lia|exact Hr]. }
+  destruct (exec_with step_rec m' r) as [mf rest]. exact K.
+Qed.
+
+(* ... C03 and C01: after ANY history of the source, a matching round carried out by the source's own statements (the generated
+   statements before the loop, the generated loop body, the generated _execute_orders per fill) returns whenever the market is running -
+   none of its assertions can fire - and what it returns is nothing or the fills of the model's walk, all at ONE price, which is no higher
+   than the limit of any filled buy order and no lower than the limit of any filled sell order *)
+Theorem a_round_of_the_source_never_fails_and_trades_at_one_price_within_both_limits : forall id tk mp0 f0 ops, Forall valid_op ops ->
+  let m := fst (exec_with step_src (init_market id tk mp0) (OTick f0 :: ops)) in
+  m_running m = true ->
+  exists m' logs, execution_src m = Ok (m', logs) /\
+    (logs = [] \/ exists p fs, run_walk m = (Some p, fs) /\ logs = map (log_of m p) fs /\ Forall (withinq p) fs /\
+                               Forall (fun f => In (fbuy f) (m_buys m) /\ In (fsell f) (m_sells m)) fs).
+Proof.
+  intros id tk mp0 f0 ops Hv.
+  rewrite (histories_of_the_source_from_setup id tk mp0 f0 ops Hv). cbn [fst].
+  assert (P : let mf := final_state (init_market id tk mp0) (OTick f0 :: ops) in book_ok mf /\ gone_here mf /\ 0 <= m_time mf).
+  { cbn [final_state]. unfold step. cbn [step_rec bind]. destruct (tick (init_market id tk mp0) f0) as [m1 rs1] eqn:Et.
+    assert (Hm1 : m1 = fst (tick (init_market id tk mp0) f0)) by (rewrite Et; reflexivity).
+    pose proof (premises_travel ops m1) as K. rewrite exec_rec_is_final_and_trace in K. cbn [fst] in K. apply K; [| | |exact Hv].
+    - rewrite Hm1. apply tick_ok. apply book_ok_init.
+    - rewrite Hm1. unfold gone_here. cbn. constructor.
+    - rewrite Hm1. cbn. lia. }
+  set (m := final_state (init_market id tk mp0) (OTick f0 :: ops)) in *. cbv zeta in P. destruct P as [HB [HG Ht]]. intros Hr.
+  pose proof (step_src_is_step_rec m OExec HB HG Ht) as E. cbn [step_src step_rec] in E.
+  destruct (execution_never_errors m HB Hr) as [m' [logs Ex]]. exists m', logs. split; [rewrite E; exact Ex|].
+  exact (execution_fills m m' logs HB Ex).
+Qed.
+Print Assumptions a_round_of_the_source_never_fails_and_trades_at_one_price_within_both_limits.
+
+(* ... C08: the storage invariant of the price / volume / counter series holds after any history of the source *)
+Theorem the_series_are_well_stored_along_histories_of_the_source : forall id tk mp0 f0 ops, Forall valid_op ops ->
+  store_ok (fst (exec_with step_src (init_market id tk mp0) (OTick f0 :: ops))).
+Proof.
+  intros id tk mp0 f0 ops Hv. rewrite (histories_of_the_source_from_setup id tk mp0 f0 ops Hv). cbn [fst].
+  apply reachable_store_ok. apply store_ok_init.
+Qed.
+Print Assumptions the_series_are_well_stored_along_histories_of_the_source.
 
 (* non-vacuity: the premises hold of a market after its first clock step, and a history with an order on each side, a round, a cancel of
    the rest and a clock step runs through the generated functions to a trade and a cancellation *)
